@@ -12,6 +12,7 @@ import warnings
 
 from . import common
 from . import c10_gen as G
+from . import c10_perm as P
 
 PROP = "C10"
 TOL_L = 1e-9        # factor entries, relative to the largest entry of the member's factor
@@ -368,19 +369,27 @@ def run_pre(case, Ks, metas, Dspec, Ds):
                 ad = O.AddedDiagLinearOperator(Kop, Dop)
             with settings.max_preconditioner_size(case["max_size"]), settings.min_preconditioning_size(case["min_size"]), \
                     settings.preconditioner_tolerance(case["tol"]):
-                cl, P, ld = ad._preconditioner()
+                cl, Pop, ld = ad._preconditioner()
                 if case["twice"]:
-                    cl, P, ld = ad._preconditioner()
-                if cl is None:
-                    return {"raised": None, "none": True, "all_none": P is None and ld is None}
+                    cl, Pop, ld = ad._preconditioner()
+                # fall-backs around it: LinearOperator._solve_preconditioner hands out the same closure (or None:
+                # the beta feature default_preconditioner is off); a preconditioner_override wins over every setting
                 I = torch.eye(n, dtype=G.DT)
+                sp = ad._solve_preconditioner()
+                sentinel = (object(), object(), object())
+                ad_ov = O.AddedDiagLinearOperator(Kop, Dop, preconditioner_override=lambda self_: sentinel)
+                extra = {"override_ok": ad_ov._preconditioner() is sentinel,
+                         "solve_ok": (sp is None) if cl is None else (sp is not None and torch.equal(sp(I), cl(I))),
+                         "base_none": tuple(Kop._preconditioner()) == (None, None, None) if type(Kop) is not O.AddedDiagLinearOperator else True}
+                if cl is None:
+                    return dict(extra, raised=None, none=True, all_none=Pop is None and ld is None)
                 clI = cl(I)
-                Pd = P.to_dense()
+                Pd = Pop.to_dense()
                 full = tuple(ad.batch_shape)
                 ok_shape = tuple(clI.shape[-2:]) == (n, n) and tuple(Pd.shape) == full + (n, n) and tuple(ld.shape) == full
                 clI = clI.expand(*full, n, n)
-                return {"raised": None, "none": False, "shape_ok": ok_shape, "clI": clI.reshape(-1, n, n), "P": Pd.reshape(-1, n, n),
-                        "ld": ld.reshape(-1), "batch": list(full)}
+                return dict(extra, raised=None, none=False, shape_ok=ok_shape, clI=clI.reshape(-1, n, n), P=Pd.reshape(-1, n, n),
+                            ld=ld.reshape(-1), batch=list(full))
         except Exception as ex:
             return {"raised": type(ex).__name__, "msg": str(ex)[:300]}
 
@@ -405,6 +414,15 @@ def pre_direct(case, Ks, Ds, obs):
     n = case["n"]
     if obs["raised"] is not None:
         return [("raises", "_preconditioner raised %s: %s" % (obs["raised"], obs.get("msg", "")))]
+    pre_fails = []
+    if not obs["solve_ok"]:
+        pre_fails.append(("solve_routing", "_solve_preconditioner() does not hand out the closure of _preconditioner() (or is not None when there is none)"))
+    if not obs["override_ok"]:
+        pre_fails.append(("override", "preconditioner_override is not returned by _preconditioner()"))
+    if not obs["base_none"]:
+        pre_fails.append(("base", "LinearOperator._preconditioner() of the base operator is not (None, None, None)"))
+    if pre_fails:
+        return pre_fails
     expect_none = case["max_size"] == 0 or n < case["min_size"]
     ref = None
     if not expect_none:
@@ -441,7 +459,7 @@ def parse_seq_nat(out):
     return [int(x.strip()) for x in body.split(";")] if body else []
 
 
-def run_shards(ctx, shards, timeout=900, workers=6):
+def run_shards(ctx, shards, timeout=900, workers=3):
     """like common.run_shards, with at most `workers` concurrent coqc processes"""
     from concurrent.futures import ThreadPoolExecutor
     paths = []
@@ -475,7 +493,8 @@ def shard_src(lits):
 
 def jsonable(case, Ks, Ds=None):
     d = dict(case)
-    d["K"] = [K.tolist() for K in Ks]
+    if Ks is not None:
+        d["K"] = [K.tolist() for K in Ks]
     if Ds is not None:
         d["D"] = Ds
     return d
@@ -485,7 +504,8 @@ def collect(ctx, direct_only=False):
     """Generate, run the implementation, evaluate the direct predicates.  Returns (records, stats);
     a record = (case, Ks, Ds, obs, literal)."""
     stats = {"pc": 0, "pre": 0, "redrawn": 0, "skipped_class": 0, "direct_failures": 0, "ties": 0, "early_stops": 0,
-             "members_differ": 0, "raised_ok": 0, "none_ok": 0, "const_branch": 0, "nonconst_branch": 0}
+             "members_differ": 0, "raised_ok": 0, "none_ok": 0, "const_branch": 0, "nonconst_branch": 0,
+             "perm": 0, "perm_members": 0, "backward": 0}
     recs = []
     reported = set()
 
@@ -557,6 +577,37 @@ def collect(ctx, direct_only=False):
             const = all(len(set(d)) == 1 for d in Ds)
             stats["const_branch" if const else "nonconst_branch"] += 1
         recs.append((case, Ks, Ds, obs, None if direct_only else pre_case_lit(case, Ks, Ds, obs)))
+
+    # linear_operator/utils/permutation.py: one record per batch member
+    for case in P.perm_grid(ctx):
+        pm = P.materialise_perm(case)
+        obs = P.run_perm(case, pm)
+        stats["perm"] += 1
+        fails = P.perm_direct(case, pm, obs)
+        if fails:
+            what, msg = fails[0]
+            rp = dict(case)
+            rp.update({k: (v if k not in ("Ms", "metas") else None) for k, v in pm.items()})
+            if "Ms" in pm:
+                rp["Ms"] = [M.tolist() for M in pm["Ms"]]
+            report(case, {"kind": "permutation-property", "case": rp, "what": [m for _, m in fails][:4],
+                          "observed": {k: v for k, v in obs.items() if k in ("raised", "msg", "res", "shape")}}, P.perm_key(case, what))
+            continue
+        if not direct_only:
+            for b, lit in enumerate(P.perm_lits(case, pm, obs, fl, nats)):
+                stats["perm_members"] += 1
+                recs.append((dict(case, member=b), None, None, obs, lit))
+
+    # PivotedCholesky.backward: direct predicate only (gradient against plain-torch autograd)
+    for case in P.bw_grid(ctx):
+        Ks, W = P.materialise_bw(case)
+        obs = P.run_bw(case, Ks, W)
+        stats["backward"] += 1
+        fails = P.bw_direct(case, Ks, W, obs)
+        if fails:
+            what, msg = fails[0]
+            report(case, {"kind": "backward-property", "case": dict(jsonable(case, Ks), W=W), "what": [m for _, m in fails][:4],
+                          "observed": {"raised": obs["raised"], "msg": obs.get("msg"), "perm": obs.get("perm")}}, P.bw_key(case, what))
     return recs, stats
 
 
@@ -599,7 +650,7 @@ def run(ctx):
                 continue
             # the direct predicates passed for this case (otherwise it would not be in recs): the
             # implementation satisfies the property here, so the disagreement is model vs implementation
-            key = (pc_key if case["kind"] == "pc" else pre_key)(case, "model")
+            key = {"pc": pc_key, "pre": pre_key}.get(case["kind"], P.perm_key)(case, "model")
             sig = json.dumps(key, sort_keys=True)
             if sig in seen:
                 continue
@@ -615,13 +666,22 @@ def run(ctx):
             if obs["raised"] or case["n"] < 2:
                 continue
             sig = ("pc", case["fam"], case["n"], tuple(case["batch"]), case["cls"], obs["r"], json.dumps(obs["perm"].tolist()))
-        else:
+        elif case["kind"] == "pre":
             if obs["none"]:
                 continue
             sig = ("pre", case["fam"], case["n"], tuple(case["batch"]), case["cls"], case["dkind"], case["max_size"], case["tol"], case["route"])
+        elif case["kind"] == "perm":
+            if case["left"] == "none" and case["right"] == "none":
+                continue
+            sig = ("perm", case["nr"], case["nc"], tuple(case["batch"]), case["left"], case["right"], case["src"], case["pbatch"])
+        else:
+            if case["n"] < 2:
+                continue
+            sig = ("inv", case["n"], tuple(case["batch"]))
         distinct.add(sig)
     samples = []
-    for case, Ks, Ds, obs, _ in (recs[len(recs) // 5], recs[-7] if len(recs) > 7 else recs[-1]):
+    main_recs = [r for r in recs if r[0]["kind"] in ("pc", "pre")]
+    for case, Ks, Ds, obs, _ in (main_recs[len(main_recs) // 5], main_recs[-7] if len(main_recs) > 7 else main_recs[-1]):
         s = {k: case[k] for k in case}
         s["K"] = [K.tolist() for K in Ks]
         if case["kind"] == "pc":
@@ -638,9 +698,11 @@ def run(ctx):
             "operator row extraction / _approx_diagonal by the dense matrix (re-checked on 11 operator classes by the correspondence)",
             "exact-arithmetic theorems (any real closed field); rounding is covered only by the 1e-9 / 1e-8 comparison tolerances",
             "correspondence harness harness/c10.py, harness/c10_gen.py (generators, operator builders, literal writer, comparators coq/C10/Check.v)"],
-        "evaluations": len(recs), "distinct_nontrivial": len(distinct),
+        "evaluations": len(recs) + stats["backward"], "distinct_nontrivial": len(distinct),
         "rule": "pivoted-Cholesky cases: distinct by (family, n, batch shape, operator class, returned rank, returned permutations), non-trivial = n >= 2 and no exception; "
-                "preconditioner cases: distinct by (family, n, batch shape, class, kind of D, max size, tolerance, construction route), non-trivial = a preconditioner was returned",
+                "preconditioner cases: distinct by (family, n, batch shape, class, kind of D, max size, tolerance, construction route), non-trivial = a preconditioner was returned; "
+                "apply_permutation members: distinct by (shape, batch shape, kinds of left/right, source class, how the permutation is batched), non-trivial = at least one side given; "
+                "inverse_permutation: distinct by (n, batch shape), n >= 2; backward-gradient cases are counted in evaluations only",
         "mismatches": len(mism), "mismatches_on_cases_failing_the_direct_predicates": also_direct, "counters": stats,
         "samples": samples,
     })
